@@ -252,6 +252,15 @@ def fingerprint(f):
     return json.dumps(out, sort_keys=True, default=str)
 
 
+def safe_fp(h):
+    """fingerprint of a read-back construct; junk constructs (e.g. the variables of a domain read as
+    fields) must not stop the comparison"""
+    try:
+        return fingerprint(h)
+    except Exception as e:  # noqa
+        return "unprintable:" + type(e).__name__
+
+
 def token_view(h):
     """coordinate references and construct multiset of a read-back field in tokens"""
     cons = {}
@@ -522,8 +531,8 @@ def run_case(case, scratch, ci):
             fs, ds = read_all(p, anydom)
             r["nread"] = [len(fs), len(ds)]
             per = []
-            fps_f = [fingerprint(h) for h in fs]
-            fps_d = [fingerprint(h) for h in ds]
+            fps_f = [safe_fp(h) for h in fs]
+            fps_d = [safe_fp(h) for h in ds]
             for k in order:
                 o, sk, s = objs[k], sks[k], singles[k]
                 pool, fps = (ds, fps_d) if sk.get("dom") else (fs, fps_f)
